@@ -31,87 +31,109 @@ def run(ctx):
     g = esc.add_exception_edges(dm)
 
     # ---------------------------------------------------------------- D1
-    defs = res.local_defs(dm)
-    hdr = [v for v in defs.get('header', []) if isinstance(v, ast.Call)]
-    ok = len(hdr) == 1 and src(hdr[0].func) == 'Message.parse' and any(
-        k.arg == 'header_only' and isinstance(k.value, ast.Constant) and k.value.value is True for k in hdr[0].keywords)
-    ctx.check(ok, 'D1', 'dispatch_message routes on the parsed header of the datagram', key=('D1', 'header-parse'),
+    from ..sval import NONE, const
+    DM = ctx.sval(dm)
+    dps = dm.call_params()
+    hdr = DM.expr('Message.parse(%s, header_only=True)' % dps[0])
+    hdrs = [c for c in DM.calls_to(qual='message.Message.parse') if strip_ids(c.term) == strip_ids(hdr)]
+    ctx.check(len(hdrs) >= 1, 'D1', 'dispatch_message routes on the parsed header of the datagram', key=('D1', 'header-parse'),
               site=ctx.site(dm, dm.node))
-    lookups = common.nodes_calling(ctx, dm, g, common.calls_named('_get_ike_sa_by_spi'))
+    H = hdrs[0].term if hdrs else hdr
+    lookups = DM.calls_to(qual='ikesacontroller.IkeSaController._get_ike_sa_by_spi')
     ctx.floor('the lookup of the IKE_SA by SPI in dispatch_message', len(lookups), 1, rule='D1')
-    for n, x in lookups:
-        arg = x.args[0]
-        key = None
-        if isinstance(arg, ast.Name) and len(defs.get(arg.id, [])) == 1:
-            key = defs[arg.id][0]
-        elif isinstance(arg, ast.IfExp):
-            key = arg
-        good = isinstance(key, ast.IfExp) and (
-            (src(key.test) == 'header.is_initiator' and src(key.body) == 'header.spi_r' and src(key.orelse) == 'header.spi_i')
-            or (src(key.test) in ('not header.is_initiator', 'header.is_responder') and src(key.body) == 'header.spi_i'
-                and src(key.orelse) == 'header.spi_r'))
-        ctx.check(good, 'D1', 'the lookup key is the SPI of the receiver\'s role: spi_r when the sender is the original '
-                  'initiator, else spi_i (`%s`)' % (src(key) if key is not None else src(arg)),
-                  key=('D1', 'lookup-key'), site=ctx.site(dm, x))
+    for c in lookups:
+        key = list(c.args.values())[0] if c.args else NONE
+        vals = []
+        for ini in (True, False):
+            def leaf(t, ini=ini):
+                t = strip_ids(t)
+                if t == ('attr', strip_ids(H), 'is_initiator'):
+                    return ini
+                if t == ('attr', strip_ids(H), 'is_responder'):
+                    return not ini
+                if t == ('attr', strip_ids(H), 'spi_r'):
+                    return 'SPIr'
+                if t == ('attr', strip_ids(H), 'spi_i'):
+                    return 'SPIi'
+                raise tq.NoValue()
+            try:
+                vals.append(tq.teval(key, leaf))
+            except (tq.NoValue, Exception):
+                vals.append(None)
+        ctx.check(vals == ['SPIr', 'SPIi'], 'D1', 'the lookup key is the SPI of the receiver\'s role: spi_r when the sender is the original '
+                  'initiator, else spi_i', key=('D1', 'lookup-key'), site=ctx.site(dm, c.node), detail={'key': tq.text(key, 300)})
         # StopIteration -> return None without effect
-        hs = [h for (tr, part, hn) in n.try_ctx if part == 'body' for h in hn
-              if 'StopIteration' in src(h.ast.type)]
-        ctx.check(bool(hs), 'D1', 'a datagram for an unknown SPI is handled (StopIteration caught at the lookup)',
-                  key=('D1', 'unknown-spi-unhandled'), site=ctx.site(dm, x))
-        for h in hs:
-            r = g.reach([h], follow_exc=False)
-            effects = [m for m in g.nodes if m.id in r and m.kind == 'stmt' and (
-                isinstance(m.ast, (ast.Assign, ast.AugAssign)) and 'self.' in src(m.ast.targets[0] if isinstance(
-                    m.ast, ast.Assign) else m.ast.target) or any(
-                    isinstance(c, ast.Call) and isinstance(c.func, ast.Attribute) and c.func.attr in (
-                        'process_message', 'append', 'remove', 'delete_child_sas') for c in ast.walk(m.ast)))]
-            rets = [m for m in g.nodes if m.id in r and m.kind == 'stmt' and isinstance(m.ast, ast.Return)]
-            ctx.check(not effects and rets and all(m.ast.value is None or src(m.ast.value) == 'None' for m in rets),
-                      'D1', 'a datagram for an unknown SPI is dropped without changing anything',
-                      key=('D1', 'unknown-spi-effect'), site=ctx.site(dm, h.ast))
+        def missed(pc):
+            return any(a[0][0] == 'caught' and 'StopIteration' in tq.text(a[0]) and a[1] for a in pc)
+        rets = [(pc, t) for pc, t, _ in DM.returns if missed(pc)]
+        ctx.check(bool(rets), 'D1', 'a datagram for an unknown SPI is handled (StopIteration caught at the lookup)',
+                  key=('D1', 'unknown-spi-unhandled'), site=ctx.site(dm, c.node))
+        eff = [x for x in DM.calls if missed(x.pc) and (x.name in ('process_message', 'append', 'remove', 'delete_child_sas') or
+                                                       any(q.startswith('ikesa.IkeSa.') and not q.split('.')[-1].startswith('log') for q in x.quals))]
+        st_ = [x for x in DM.stores if missed(x[2])]
+        ctx.check(bool(rets) and not eff and not st_ and all(t == NONE for _, t in rets), 'D1',
+                  'a datagram for an unknown SPI is dropped without changing anything', key=('D1', 'unknown-spi-effect'),
+                  site=ctx.site(dm, c.node))
     by_spi = ctx.func('ikesacontroller.IkeSaController._get_ike_sa_by_spi')
-    t = src(by_spi.node.body[-1])
-    ctx.check('x.my_spi == spi' in t and 'self.ike_sas' in t, 'D1', 'the lookup compares the local SPI of each table entry',
-              key=('D1', 'lookup-compare'), site=ctx.site(by_spi, by_spi.node))
+    BS = ctx.sval(by_spi)
+    ctx.check(strip_ids(BS.ret()) == strip_ids(BS.expr('next(x for x in self.ike_sas if x.my_spi == %s)' % by_spi.call_params()[0])), 'D1',
+              'the lookup compares the local SPI of each table entry', key=('D1', 'lookup-compare'), site=ctx.site(by_spi, by_spi.node),
+              detail={'returned': tq.text(BS.ret())})
     # responder creation
-    ctors = [(n, x) for n, x in common.nodes_calling(ctx, dm, g, lambda c, r: r.kind == 'ctor' and r.cls.qual == 'ikesa.IkeSa')]
+    ctors = DM.calls_to(callee='new ikesa.IkeSa')
     ctx.floor('D1 responder IkeSa construction', len(ctors), 1)
-    ikinit = ctx.func('ikesa.IkeSa.__init__')
-    for n, x in ctors:
-        b = {k: src(v) for k, v in bind_args(x, ikinit).items()}
-        conf = None
-        if 'configuration' in b and b['configuration'] in defs and len(defs[b['configuration']]) == 1:
-            conf = src(defs[b['configuration']][0])
-        exp = {'is_initiator': 'False', 'peer_spi': 'header.spi_i', 'my_addr': 'ip_address(my_addr)',
-               'peer_addr': 'ip_address(peer_addr)'}
+    for c in ctors:
+        b = {k: strip_ids(v) for k, v in c.args.items()}
+        E = lambda text: strip_ids(DM.expr(text, dict(DM.entry_env, H=H)))   # noqa: E731
+        exp = {'is_initiator': const(False), 'peer_spi': E('H.spi_i'), 'my_addr': E('ip_address(%s)' % dps[1]),
+               'peer_addr': E('ip_address(%s)' % dps[2])}
         for k, v in exp.items():
-            ctx.check(b.get(k) == v, 'D1', 'the responder IKE_SA is created with %s=%s' % (k, v),
-                      key=('D1', 'responder-arg', k), site=ctx.site(dm, x), detail={'found': b.get(k)})
-        ctx.check(conf is not None and 'get_ike_configuration(ip_address(my_addr), ip_address(peer_addr))' in conf,
+            ctx.check(b.get(k) == v, 'D1', 'the responder IKE_SA is created with %s=%s' % (k, tq.text(v)),
+                      key=('D1', 'responder-arg', k), site=ctx.site(dm, c.node), detail={'found': tq.text(b[k]) if k in b else None})
+        ctx.check(b.get('configuration') == E('self.configuration.get_ike_configuration(ip_address(%s), ip_address(%s))' % (dps[1], dps[2])),
                   'D1', 'its configuration is looked up by (local address, peer address) of the datagram',
-                  key=('D1', 'responder-conf'), site=ctx.site(dm, x), detail={'found': conf})
-        conds = [c for c in g.nodes if c.kind == 'cond']
-        c1 = [c for c in conds if src(c.ast) == 'header.exchange_type == Message.Exchange.IKE_SA_INIT']
-        c2 = [c for c in conds if src(c.ast) == 'header.is_request']
-        ctx.check(any(common.dominated_by_edge(g, n, c, 'T') for c in c1)
-                  and any(common.dominated_by_edge(g, n, c, 'T') for c in c2), 'D1',
-                  'a fresh responder IKE_SA is created only for an IKE_SA_INIT request',
-                  key=('D1', 'responder-branch'), site=ctx.site(dm, x))
+                  key=('D1', 'responder-conf'), site=ctx.site(dm, c.node), detail={'found': tq.text(b.get('configuration', NONE), 300)})
+        goal = DM.expr('H.exchange_type == Message.Exchange.IKE_SA_INIT and H.is_request', dict(DM.entry_env, H=H))
+        ctx.check(tq.entails(c.pc, goal) is True, 'D1', 'a fresh responder IKE_SA is created only for an IKE_SA_INIT request',
+                  key=('D1', 'responder-branch'), site=ctx.site(dm, c.node))
     byc = ctx.func('ikesacontroller.IkeSaController._get_ike_sa_by_child_sa_spi')
-    t = src(byc.node)
-    ctx.check('child_sa.inbound_spi == spi' in t and 'child_sa.outbound_spi == spi' in t and 'return None' in t
-              and 'for ike_sa in self.ike_sas' in t, 'D1',
-              'an expiry notice is routed to the IKE_SA owning the SPI (inbound or outbound), else to nobody',
-              key=('D1', 'expire-lookup'), site=ctx.site(byc, byc.node))
+    BC = ctx.sval(byc)
+    sp = ('param', byc.call_params()[0])
+    table = ('attr', ('param', 'self'), 'ike_sas')
+    rets = [(strip_ids(pc), strip_ids(t)) for pc, t, _ in BC.returns]
+    hit = [(pc, t) for pc, t in rets if t == ('elem', table, 0)]
+    okc = len(hit) >= 1 and len(rets) == len(hit) + 1 and any(t == NONE for _, t in rets)
+    if okc:
+        from ..sval import pc_term, mk_bool
+        ch = ('elem', ('attr', ('elem', table, 0), 'child_sas'), 0)
+        want = [strip_ids(BC.mk_cmp('==', ('attr', ch, 'inbound_spi'), sp)), strip_ids(BC.mk_cmp('==', ('attr', ch, 'outbound_spi'), sp))]
+
+        def flat(pc):
+            """path condition with any(<generator>) replaced by the disjunction it tests"""
+            out = []
+            for a in pc:
+                t = a[0]
+                if t[0] == 'call' and t[1] == 'builtins.any':
+                    inner = [x for x in tq.find(t, lambda y: y[0] in ('or', 'cmp'))]
+                    t = inner[0] if inner else t
+                out.append((t, a[1]))
+            return tuple(out)
+        hits = [flat(pc) for pc, _ in hit]
+        goal = ('or', tuple(want))
+        # a returned entry owns the SPI; and every owner is returned by one of the returns
+        okc = all(tq.entails(h, goal) is True for h in hits) and all(
+            tq.entails(((w, True),), mk_bool('or', tuple(strip_ids(pc_term(h)) for h in hits))) is True for w in want)
+    ctx.check(okc, 'D1', 'an expiry notice is routed to the IKE_SA owning the SPI (inbound or outbound), else to nobody',
+              key=('D1', 'expire-lookup'), site=ctx.site(byc, byc.node), detail={'returns': [(tq.text(t), [tq.text(a[0], 200) for a in pc]) for pc, t in rets]})
     pe = ctx.func('ikesacontroller.IkeSaController.process_expire')
-    gp = esc.add_exception_edges(pe)
-    calls = common.nodes_calling(ctx, pe, gp, lambda c, r: any(t.qual == 'ikesa.IkeSa.process_expire' for t in r.targets))
+    PE = ctx.sval(pe)
+    calls = PE.calls_to(qual='ikesa.IkeSa.process_expire')
     ctx.floor('D1 IkeSa.process_expire call in the controller', len(calls), 1)
-    for n, x in calls:
-        recv = src(x.func.value)
-        conds = [c for c in gp.nodes if c.kind == 'cond' and src(c.ast) in (recv, '%s is not None' % recv)]
-        ctx.check(any(common.dominated_by_edge(gp, n, c, 'T') for c in conds), 'D1',
-                  'an expiry notice for an unknown SPI is ignored', key=('D1', 'expire-unknown'), site=ctx.site(pe, x))
+    for c in calls:
+        recv = c.recv
+        goals = [recv, ('not', PE.mk_cmp('is', recv, NONE))]
+        ctx.check(any(tq.entails(c.pc, g_) is True for g_ in goals) and tq.is_call(recv, 'ikesacontroller.IkeSaController._get_ike_sa_by_child_sa_spi'),
+                  'D1', 'an expiry notice for an unknown SPI is ignored', key=('D1', 'expire-unknown'), site=ctx.site(pe, c.node))
 
     # ---------------------------------------------------------------- D2
     ctrl = prog.cls('ikesacontroller.IkeSaController')
